@@ -278,20 +278,72 @@ def swap_branches(tree: ast.Module) -> None:
     ast.fix_missing_locations(tree)
 
 
+def keyword_calls(tree: ast.Module, signatures: dict | None = None) -> None:
+    """Calls of package functions / uniquely named package methods pass their arguments by keyword instead of by position.
+
+    ``signatures`` maps a bare function name (module-level function, unique in the package) or ``.method`` (method name defined
+    by exactly one class, no decorators) to its positional parameter names.  Calls with ``*args`` are left alone.
+    """
+    signatures = signatures or {}
+    for n in ast.walk(tree):
+        if not isinstance(n, ast.Call) or any(isinstance(a, ast.Starred) for a in n.args) or not n.args:
+            continue
+        if isinstance(n.func, ast.Name) and n.func.id in signatures:
+            params = signatures[n.func.id]
+        elif isinstance(n.func, ast.Attribute) and "." + n.func.attr in signatures and not (isinstance(n.func.value, ast.Name) and n.func.value.id in ("np", "numpy", "os", "json", "math")):
+            params = signatures["." + n.func.attr]
+        else:
+            continue
+        if len(n.args) > len(params) or any(k.arg in params[:len(n.args)] for k in n.keywords if k.arg):
+            continue
+        n.keywords = [ast.keyword(arg=params[i], value=a) for i, a in enumerate(n.args)] + n.keywords
+        n.args = []
+    ast.fix_missing_locations(tree)
+
+
+def package_signatures(prog: Program) -> dict:
+    """Signatures usable by ``keyword_calls``: names that identify exactly one definition in the package (tests and protocols excluded)."""
+    funcs: dict[str, list] = {}
+    meths: dict[str, list] = {}
+    for m in prog.modules.values():
+        if "/tests/" in m.rel() or m.rel().endswith("protocols.py"):
+            continue
+        for d in m.tree.body:
+            if isinstance(d, ast.FunctionDef):
+                funcs.setdefault(d.name, []).append(d)
+            elif isinstance(d, ast.ClassDef):
+                for x in d.body:
+                    if isinstance(x, ast.FunctionDef):
+                        meths.setdefault(x.name, []).append(x)
+    sig = {}
+    for name, ds in funcs.items():
+        d = ds[0]
+        if len(ds) == 1 and not d.decorator_list and not d.args.posonlyargs and not d.args.vararg and name not in meths:
+            sig[name] = [a.arg for a in d.args.args]
+    for name, ds in meths.items():
+        d = ds[0]
+        if len(ds) == 1 and not d.decorator_list and not d.args.posonlyargs and not d.args.vararg and not name.startswith("__") and name not in funcs \
+                and d.args.args and d.args.args[0].arg == "self":
+            sig["." + name] = [a.arg for a in d.args.args[1:]]
+    return sig
+
+
 TREE_TWINS = {"alpha-renaming of all locals in every function": rename_locals,
               "every type annotation of every signature removed": strip_annotations,
               "methods of every class and runs of top-level functions in reverse order": reorder_defs,
               "every ordered comparison written the other way round (a <= b as b >= a)": flip_comparisons,
               "every if/else and conditional expression with negated test and swapped branches": swap_branches,
+              "arguments of package functions and uniquely named methods passed by keyword": keyword_calls,
               "assert + logging call inserted at the top of every function": add_asserts,
               "call arguments hoisted into fresh locals in every function": hoist_call_arguments}
 
 
 def tree_twin_overrides(prog: Program, transform) -> dict:
     ov = {}
+    sig = package_signatures(prog) if transform is keyword_calls else None
     for m in prog.modules.values():
         t = copy.deepcopy(m.tree)
-        transform(t)
+        transform(t, sig) if sig is not None else transform(t)
         # round trip through source so that positions are consistent
         ov[m.rel()] = ast.parse(ast.unparse(t))
     return ov
